@@ -460,6 +460,92 @@ func c19Xid(r *core.Run) {
 			check(cs.Caller, cs, "getXid")
 		}
 	}
+	// every message that carries an xid (a struct of the message package with a field Xid, own or promoted, that
+	// announces a type code) yields it: through the reflective field lookup, or through an assertion / case naming
+	// exactly that type (a type that merely embeds an asserted one is a different dynamic type)
+	{
+		reflective := false
+		assertedT := map[types.Type]bool{}
+		ginfo := gx.Pkg.TypesInfo
+		ast.Inspect(gx.Decl.Body, func(n ast.Node) bool {
+			switch x := n.(type) {
+			case *ast.CallExpr:
+				if sel, ok := ast.Unparen(x.Fun).(*ast.SelectorExpr); ok && sel.Sel.Name == "FieldByName" && len(x.Args) == 1 {
+					if v := core.ConstVal(ginfo, x.Args[0]); v != nil && v.Kind() == constant.String && constant.StringVal(v) == "Xid" {
+						reflective = true
+					}
+				}
+			case *ast.TypeAssertExpr:
+				if x.Type != nil {
+					if t := ginfo.TypeOf(x.Type); t != nil {
+						assertedT[t] = true
+					}
+				}
+			case *ast.CaseClause:
+				for _, e := range x.List {
+					if tv, ok := ginfo.Types[e]; ok && tv.IsType() {
+						assertedT[tv.Type] = true
+					}
+				}
+			}
+			return true
+		})
+		mp := w.Pkg("pkg/protocol/message")
+		nCarriers := 0
+		// the message types the client sends: static types of what is handed to the client's send functions
+		sent := map[*types.Named]bool{}
+		for _, f := range w.SortedFuncs() {
+			if w.IsTestFile(f.Decl.Pos()) || strings.Contains(f.Pkg.PkgPath, "/mock") {
+				continue
+			}
+			for _, cs := range w.Calls(f) {
+				if cs.Static == nil || core.RecvNamed(cs.Static) == nil || core.RecvNamed(cs.Static).Obj().Name() != "GettyRemotingClient" || !strings.HasPrefix(cs.Static.Name(), "Send") {
+					continue
+				}
+				for _, a := range cs.Call.Args {
+					t := f.Pkg.TypesInfo.TypeOf(a)
+					if p, ok := t.(*types.Pointer); ok {
+						t = p.Elem()
+					}
+					if nt, ok := t.(*types.Named); ok && nt.Obj().Pkg() != nil && strings.HasSuffix(nt.Obj().Pkg().Path(), "/pkg/protocol/message") {
+						sent[nt] = true
+					}
+				}
+			}
+		}
+		if mp != nil {
+			sc := mp.Types.Scope()
+			for _, name := range sc.Names() {
+				tn, ok := sc.Lookup(name).(*types.TypeName)
+				if !ok {
+					continue
+				}
+				nt, ok := tn.Type().(*types.Named)
+				if !ok || !sent[nt] {
+					continue
+				}
+				if _, isStruct := nt.Underlying().(*types.Struct); !isStruct {
+					continue
+				}
+				o, _, _ := types.LookupFieldOrMethod(nt, true, mp.Types, "Xid")
+				fv, isVar := o.(*types.Var)
+				if !isVar || !fv.IsField() {
+					continue
+				}
+				if m, _, _ := types.LookupFieldOrMethod(nt, true, mp.Types, "GetTypeCode"); m == nil {
+					continue // an abstract part, never sent by itself
+				}
+				nCarriers++
+				r.Sites++
+				covered := reflective || assertedT[nt] || assertedT[types.NewPointer(nt)]
+				r.Check(covered, "C19.xid", core.ShortKey(gx.Obj)+" yields the xid of message."+name, w.Pos(gx.Decl.Pos()), "reflective Xid lookup, or a case for this type",
+					"message."+name+" carries an Xid ("+fv.Name()+", possibly promoted from an embedded request) but the xid extractor has no case for exactly this type and no reflective lookup: its xid comes out empty, the XID policy falls back to a random session and the request can go to a coordinator that does not own the transaction")
+			}
+		}
+		if nCarriers < 4 {
+			r.Bad("C19.xid", "INSTANCE-FLOOR xid-carrying message types", "", "fewer message types with an Xid field than confirmed by hand")
+		}
+	}
 	// the reflective lookup does not produce a bogus string for messages without Xid
 	bogus := false
 	ast.Inspect(gx.Decl.Body, func(n ast.Node) bool {
